@@ -83,7 +83,7 @@ def gen_c09_file(rnd):
         if not r['category'] and not r['tags']:
             r['tags'] = ['t' + str(i)]
         rules.append(r)
-    return {'vars': [], 'tfs': [], 'rules': rules}, D
+    return respell_priorities(rnd, {'vars': [], 'tfs': [], 'rules': rules}), D
 
 
 def gen_cases(seed, tier):
